@@ -42,7 +42,7 @@ type pend struct {
 type history struct {
 	root         rate.Limiter
 	t0           time.Time
-	t1           time.Time // after rate.New returned: the ticker was started between t0 and t1
+	t1           time.Time    // after rate.New returned: the ticker was started between t0 and t1
 	hidden       rate.Limiter // black-box build only: the hidden capacity-1 sentinel child of the root
 	handles      []rate.Limiter
 	pending      []pend
@@ -51,6 +51,7 @@ type history struct {
 	tickIdx      int
 	rootClosed   bool
 	inconclusive bool
+	overlaps     int  // rwin: read-only calls that returned while the harness held the read lock
 	dead         bool // a call did not return in time: the tree is considered hung, nothing more is executed
 }
 
@@ -145,6 +146,15 @@ func (h *history) op(f []string) string {
 			h.pending = append(h.pending, pend{ch: ch, id: id})
 			return "r" + strconv.Itoa(id) + " pending"
 		}
+	case len(f) == 2 && f[0] == "chancap":
+		l := handle(f[1])
+		if l == nil {
+			return "bad-handle"
+		}
+		ch := l.Use(-1) // answered before the lock is taken; the channel is made like every other answer channel
+		id := h.nreq
+		h.nreq++
+		return "r" + strconv.Itoa(id) + " cap=" + strconv.Itoa(cap(ch))
 	case len(f) == 1 && f[0] == "tick":
 		if h.rootClosed {
 			return "no-ticker"
@@ -170,6 +180,8 @@ func (h *history) op(f []string) string {
 			return "inconclusive"
 		}
 		return "tick" + h.collect(false) + " last=" + h.perLimiter(func(l rate.Limiter) string { return strconv.Itoa(l.LastUsed()) })
+	case len(f) >= 3 && f[0] == "rwin":
+		return h.rwin(strings.Join(f[1:], " "))
 	case len(f) >= 3 && f[0] == "window":
 		return h.window(f[1] == "early", strings.Split(strings.Join(f[2:], " "), ";"))
 	case len(f) == 2 && f[0] == "close":
@@ -392,6 +404,150 @@ func (h *history) window(early bool, ops []string) string {
 	}))
 	sb.WriteString(" last=" + h.perLimiter(func(l rate.Limiter) string { return strconv.Itoa(l.LastUsed()) }))
 	sb.WriteString(" cap=" + h.perLimiter(func(l rate.Limiter) string { return strconv.Itoa(l.Cap(false)) }))
+	return sb.String()
+}
+
+// rwin runs the read-lock window `r ; r ; … | w`: the harness takes the controller's lock in READ mode (white box) and,
+// while it is inside, makes the read-only calls r from goroutines of their own — each must return: readers overlap —;
+// then it starts the writing call w, sees that it is kept out, releases its read lock and lets w finish.  The driver runs
+// the same schedule on the readers-writer machine (RL.rwWindow).  (The reads come before the writer is started: Go's
+// RWMutex keeps NEW readers out while a writer is waiting.)
+func (h *history) rwin(spec string) string {
+	if h.rootClosed {
+		return "no-ticker"
+	}
+	if !whiteBox || !h.inWindow() {
+		h.inconclusive = true
+		return "inconclusive"
+	}
+	parts := strings.Split(spec, "|")
+	if len(parts) != 2 {
+		return "bad-op"
+	}
+	handle := func(s string) rate.Limiter {
+		i, err := strconv.Atoi(s)
+		if err != nil || i < 0 || i >= len(h.handles) {
+			return nil
+		}
+		return h.handles[i]
+	}
+	type rd struct {
+		f []string
+		l rate.Limiter
+	}
+	var reads []rd
+	for _, o := range strings.Split(parts[0], ";") {
+		f := strings.Fields(o)
+		if len(f) == 0 {
+			continue
+		}
+		ok := (f[0] == "cap" && len(f) == 3) || ((f[0] == "last" || f[0] == "closed") && len(f) == 2)
+		if !ok || handle(f[1]) == nil {
+			return "bad-op"
+		}
+		reads = append(reads, rd{f, handle(f[1])})
+	}
+	w := strings.Fields(parts[1])
+	wok := len(w) >= 2 && ((w[0] == "use" && len(w) == 3) || (w[0] == "setcap" && len(w) == 3) || (w[0] == "new" && len(w) == 3) ||
+		(w[0] == "close" && len(w) == 2 && w[1] != "0"))
+	if !wok || handle(w[1]) == nil || (w[0] == "use" && hx.Atoi(w[2]) < 0) { // a negative Use never takes the lock
+		return "bad-op"
+	}
+	wl := handle(w[1])
+	var sb strings.Builder
+	sb.WriteString("rwin")
+	rlockTree(h.root)
+	for _, r := range reads {
+		var v string
+		r := r
+		got := make(chan struct{})
+		go func() {
+			defer close(got)
+			defer func() { _ = recover() }()
+			switch r.f[0] {
+			case "cap":
+				v = strconv.Itoa(r.l.Cap(r.f[2] == "1"))
+			case "last":
+				v = strconv.Itoa(r.l.LastUsed())
+			default:
+				v = strconv.FormatBool(r.l.Closed())
+			}
+		}()
+		select {
+		case <-got:
+			h.overlaps++
+		case <-time.After(100 * time.Millisecond):
+			// The call does not overlap with a reader: it takes the lock exclusively (the property does not ask for more),
+			// or a tick has come in between and keeps new readers out.  Let it in and go on; what it returns is compared.
+			runlockTree(h.root)
+			select {
+			case <-got:
+			case <-time.After(waitLimit):
+				h.dead = true
+				return "rwin reader-hang: `" + strings.Join(r.f, " ") + "` did not return"
+			}
+			if !h.inWindow() {
+				h.inconclusive = true
+				return "inconclusive"
+			}
+			rlockTree(h.root)
+		}
+		sb.WriteString(" " + v)
+	}
+	var ch <-chan error
+	var nl rate.Limiter
+	done := make(chan struct{})
+	go func() {
+		defer close(done)
+		defer func() { _ = recover() }()
+		switch w[0] {
+		case "use":
+			ch = wl.Use(hx.Atoi(w[2]))
+		case "setcap":
+			wl.SetCap(hx.Atoi(w[2]))
+		case "new":
+			nl = wl.New(hx.Atoi(w[2]))
+		case "close":
+			wl.Close()
+		}
+	}()
+	blocked := "1"
+	select {
+	case <-done:
+		blocked = "0" // every call admitted here takes the write lock first: it must wait for the reader
+	case <-time.After(3 * time.Millisecond):
+	}
+	runlockTree(h.root)
+	select {
+	case <-done:
+	case <-time.After(waitLimit):
+		h.dead = true
+		return "rwin writer-hang: `" + strings.Join(w, " ") + "` did not return after the readers had left"
+	}
+	sb.WriteString(" blocked=" + blocked)
+	switch w[0] {
+	case "use":
+		id := h.nreq
+		h.nreq++
+		if ch == nil {
+			sb.WriteString(" r" + strconv.Itoa(id) + " panic")
+			break
+		}
+		select {
+		case err := <-ch:
+			sb.WriteString(" r" + strconv.Itoa(id) + " " + classify(err))
+		default:
+			h.pending = append(h.pending, pend{ch: ch, id: id})
+			sb.WriteString(" r" + strconv.Itoa(id) + " pending")
+		}
+	case "new":
+		if nl == nil {
+			sb.WriteString(" n=nil")
+		} else {
+			h.handles = append(h.handles, nl)
+			sb.WriteString(" n=ok")
+		}
+	}
 	return sb.String()
 }
 
@@ -770,9 +926,9 @@ func genDeep(r *hx.Rng, emit func(string)) int {
 		if !closedMid && r.Chance(1, 2) {
 			out(fmt.Sprintf("close %d", mid))
 			closedMid = true
-			use(chain[d])            // below the closed limiter: refused
-			use(parent[mid])         // above it: still alive
-			use(r.Intn(n))           // anywhere
+			use(chain[d])                     // below the closed limiter: refused
+			use(parent[mid])                  // above it: still alive
+			use(r.Intn(n))                    // anywhere
 			out(fmt.Sprintf("new %d 3", mid)) // New on a closed limiter
 			if r.Chance(1, 2) {
 				out(fmt.Sprintf("close %d", mid)) // twice
@@ -952,9 +1108,73 @@ func genWindow(r *hx.Rng, emit func(string)) int {
 	return cnt
 }
 
+// genRW: read-lock windows (see history.rwin): the read-only calls overlap with a reader that is already inside, one
+// writing call (Use that is granted / has to wait / is refused, SetCap, New, child Close) is kept out until the readers
+// have left; ticks in between so that LastUsed has something to report.
+func genRW(r *hx.Rng, emit func(string)) int {
+	cnt := 0
+	out := func(s string) { emit(s); cnt++ }
+	rootCap := r.Range(1, 9)
+	out("reset " + strconv.Itoa(rootCap))
+	caps := []int{rootCap}
+	for i, k := 0, r.Range(0, 3); i < k; i++ {
+		p := r.Intn(len(caps))
+		c := hx.Pick(r, []int{caps[p] + 2, caps[p], (caps[p] + 1) / 2, r.Range(0, 6)})
+		out(fmt.Sprintf("new %d %d", p, c))
+		caps = append(caps, c)
+	}
+	closed := make([]bool, 8)
+	for w, k := 0, r.Range(2, 5); w < k; w++ {
+		n := len(caps)
+		for i, m := 0, r.Intn(3); i < m; i++ {
+			l := r.Intn(n)
+			out(fmt.Sprintf("use %d %d", l, hx.Pick(r, []int{1, 2, caps[l], rootCap})))
+		}
+		var reads []string
+		for i, m := 0, r.Range(1, 3); i < m; i++ {
+			l := r.Intn(n)
+			reads = append(reads, hx.Pick(r, []string{fmt.Sprintf("cap %d 1", l), fmt.Sprintf("cap %d 0", l), fmt.Sprintf("last %d", l),
+				fmt.Sprintf("closed %d", l)}))
+		}
+		l := r.Intn(n)
+		var wr string
+		switch x := r.Intn(10); {
+		case x < 5:
+			wr = fmt.Sprintf("use %d %d", l, hx.Pick(r, []int{1, 2, caps[l], caps[l] + 1, rootCap, 0}))
+		case x < 7:
+			nc := hx.Pick(r, []int{0, 1, caps[l] + 1, r.Range(0, 8), -1})
+			wr = fmt.Sprintf("setcap %d %d", l, nc)
+			caps[l] = nc
+		case x < 8 && n < 7:
+			c := r.Range(1, 5)
+			wr = fmt.Sprintf("new %d %d", l, c)
+			if !closed[l] {
+				caps = append(caps, c)
+			}
+		case n > 1:
+			l = r.Range(1, n-1)
+			wr = fmt.Sprintf("close %d", l)
+			closed[l] = true
+		default:
+			wr = fmt.Sprintf("use %d 1", l)
+		}
+		out("rwin " + strings.Join(reads, " ; ") + " | " + wr)
+		if r.Chance(1, 2) {
+			out("tick")
+		}
+	}
+	if r.Chance(1, 2) {
+		out("close 0")
+	}
+	return cnt
+}
+
 func genHistory(r *hx.Rng, emit func(string)) int {
 	if r.Chance(1, 7) {
 		return genWindow(r, emit)
+	}
+	if r.Chance(1, 12) {
+		return genRW(r, emit)
 	}
 	switch x := r.Intn(120); {
 	case x < 2:
@@ -1030,8 +1250,10 @@ func genHistory(r *hx.Rng, emit func(string)) int {
 				} else {
 					lims[l].closed = true
 				}
-			case x < 34:
+			case x < 33:
 				out(fmt.Sprintf("cap %d %d", l, r.Intn(2)))
+			case x < 34:
+				out(fmt.Sprintf("chancap %d", l))
 			case x < 36:
 				out(fmt.Sprintf("last %d", l))
 			case x < 38:
